@@ -16,6 +16,7 @@ import (
 	"github.com/tormoder/fit"
 	"pgregory.net/rapid"
 
+	"verif/firstuse"
 	"verif/fitmodel"
 	"verif/gen"
 	"verif/hx"
@@ -655,6 +656,13 @@ func million(rec *hx.Recorder) {
 	}
 }
 
+// TestMain: with VERIF_FIRSTUSE_WORKER set this binary is a child of the
+// "first-use" sub-check (see package firstuse).
+func TestMain(m *testing.M) {
+	firstuse.WorkerIfAsked()
+	os.Exit(m.Run())
+}
+
 func TestC03(t *testing.T) {
 	hx.Main(t, "C03", func(rec *hx.Recorder) {
 		if rp, ok := hx.LoadReplay(); ok {
@@ -672,6 +680,8 @@ func TestC03(t *testing.T) {
 				twoGiB(rec)
 			case "million":
 				million(rec)
+			case "first-use":
+				firstuse.Run(rec, 300, func(msg string) { rec.Fail("first-use", "", msg, seqCase{FileType: 4, Text: "(first-use)"}) })
 			default:
 				var c seqCase
 				json.Unmarshal(rp.Case, &c)
@@ -686,6 +696,11 @@ func TestC03(t *testing.T) {
 			declaredSizes(rec)
 			if os.Getenv("VERIF_VARIANT") == "" {
 				million(rec)
+				// the first Decode calls of a fresh process made by 16
+				// goroutines at once: every message in its container
+				firstuse.Run(rec, hx.Pick(150, 1500), func(msg string) {
+					rec.Fail("first-use", "", msg, seqCase{FileType: 4, Text: "(first-use) 16 goroutines decode a small activity file as the first calls of a fresh process"})
+				})
 			}
 			if hx.Thorough() {
 				twoGiB(rec)
